@@ -152,6 +152,26 @@ def check(run, repo, world):
                where(mod, call))
 
     check_lock_pair(run, repo, world, fns)
+    # the lock object lives as long as the driver: replaced while a caller
+    # holds or queues for the old one, the holder releases a lock it never
+    # acquired and the queued callers wait for ever
+    for modname_ in (HID, SER):
+        m_ = repo.mod(modname_)
+        for (c_, name_, kind_, f_) in methods_of(world, modname_):
+            for n_ in ast.walk(f_):
+                if isinstance(n_, (ast.Assign, ast.AugAssign,
+                                   ast.AnnAssign)):
+                    tg = n_.targets if isinstance(n_, ast.Assign) else [
+                        n_.target]
+                    for t_ in tg:
+                        if isinstance(t_, ast.Attribute) and \
+                                t_.attr == "transaction_lock":
+                            run.ob("R-LOCK-PAIR", "%s.%s#creates-"
+                                   "transaction_lock" % (c_.qname, name_),
+                                   name_ == "__init__",
+                                   "transaction_lock is (re)created in %s: "
+                                   "only the constructor may create it"
+                                   % name_, where(m_, n_))
     # 'every caller eventually completes': the one wait a caller makes while
     # it holds the lock (the Tridonic sender on its event) is not entered
     # while a report for it is already queued (shared with C17)
